@@ -75,9 +75,28 @@ func cmdC16Clash(c *ctx) {
 			continue
 		}
 		inp, outp := c.inputWords(16), c.inputWords(16)
-		for k := 0; k < 8; k++ {
+		// a helper may also take the name of a WGSL predeclared function the program does not use: user declarations shadow
+		// predeclared names, so the calls still go to the helper
+		var helpers, freeBuiltins []string
+		for _, u := range users {
+			if strings.HasPrefix(u, "helper") {
+				helpers = append(helpers, u)
+			}
+		}
+		for _, b := range wgslPredeclaredFns {
+			if !inSrc[b] {
+				freeBuiltins = append(freeBuiltins, b)
+			}
+		}
+		for k := 0; k < 10; k++ {
 			g := gens[c.rng.Intn(len(gens))]
 			u := users[c.rng.Intn(len(users))]
+			if k >= 8 {
+				if len(helpers) == 0 || len(freeBuiltins) == 0 {
+					break
+				}
+				g, u = freeBuiltins[c.rng.Intn(len(freeBuiltins))], helpers[c.rng.Intn(len(helpers))]
+			}
 			re := regexp.MustCompile(`\b` + regexp.QuoteMeta(u) + `\b`)
 			src2 := re.ReplaceAllString(src, g)
 			mod2, _ := frontEnd(src2)
@@ -106,5 +125,10 @@ func cmdC16Clash(c *ctx) {
 		}
 	}
 }
+
+var wgslPredeclaredFns = []string{"all", "any", "select", "abs", "min", "max", "clamp", "dot", "countOneBits", "reverseBits", "firstLeadingBit",
+	"firstTrailingBit", "countLeadingZeros", "countTrailingZeros", "floor", "ceil", "round", "trunc", "sign", "sqrt", "length", "normalize",
+	"cross", "mix", "step", "fma", "pow", "exp", "log", "sin", "cos", "transpose", "determinant", "pack4xU8", "unpack4xU8", "extractBits",
+	"insertBits", "saturate", "fract", "distance", "arrayLength", "bitcast"}
 
 func init() { commands["c16clash"] = cmdC16Clash }
